@@ -6,6 +6,7 @@ import (
 	"bytes"
 	"errors"
 	"io"
+	"strconv"
 	"strings"
 	"testing"
 
@@ -143,6 +144,41 @@ func TestC13(t *testing.T) {
 			return "OK " + strings.Join(parts, ",")
 		})
 		out.emit("prim", "c13p", []string{hexBytes(data), intsCSV(chunks), b01(eof), failS, intsCSV(reqs)}, obs)
+	}
+	// Read and Skip sequences on a plain byte reader
+	for k := 0; k < n*4; k++ {
+		data := make([]byte, g.r.Intn(40))
+		g.r.Read(data)
+		var reqs []string
+		for j := 1 + g.r.Intn(6); j > 0; j-- {
+			q := g.r.Intn(14)
+			if g.r.Intn(2) == 0 {
+				reqs = append(reqs, "s"+hx(uint64(q)))
+			} else {
+				reqs = append(reqs, "r"+hx(uint64(q)))
+			}
+		}
+		obs := guard(func() string {
+			dr := codec.NewDecodingReader(bytes.NewReader(data), uint64(len(data)))
+			var parts []string
+			for _, q := range reqs {
+				k, _ := strconv.ParseUint(q[1:], 16, 64)
+				if q[0] == 's' {
+					if _, err := dr.Skip(k); err != nil {
+						return "ERR"
+					}
+					parts = append(parts, "s")
+				} else {
+					p := make([]byte, k)
+					if _, err := dr.Read(p); err != nil {
+						return "ERR"
+					}
+					parts = append(parts, hexBytes(p))
+				}
+			}
+			return "OK " + strings.Join(parts, ",")
+		})
+		out.emit("skip", "c13s", []string{hexBytes(data), strings.Join(reqs, ",")}, obs)
 	}
 	for k := 0; k < n; k++ {
 		ty := g.ty(1 + g.r.Intn(3))
